@@ -114,3 +114,14 @@ Theorem C18_source_failover_metrics : forall x built_ok write_ok errwrite_ok,
    run_refresh fn_FailoverOf_refreshStale x write_ok = Some (refresh_spec x write_ok)).
 Proof. intros; split; [exact (tie_do_build _ _ _ _)|exact (tie_refresh_stale _ _)]. Qed.
 Print Assumptions C18_source_failover_metrics.
+
+From Cache Require Import TieTransfer.
+
+(* DeleteAll removes and counts, in the same critical section, every entry it iterates over: the number it reports as
+   cache_delete is the number of entries it removed *)
+Theorem C18_source_delete_all_counts : forall cnt,
+  (run_delete_all_body fn_shardedMap_DeleteAll cnt = Some ([("delete", [])], Some (VZ (cnt + 1))) /\
+   run_delete_all_body fn_shardedMapOf_DeleteAll cnt = Some ([("delete", [])], Some (VZ (cnt + 1)))) /\
+  run_sync_cb fn_syncMap_DeleteAll cnt = Some ([("delete", [])], Some (VZ (cnt + 1)), true).
+Proof. intros; split; [exact (tie_delete_all_sharded _)|exact (tie_delete_all_sync _)]. Qed.
+Print Assumptions C18_source_delete_all_counts.
